@@ -158,16 +158,7 @@ func resolveOp(c px.Context, text string) core.Result {
 		// the type ParseType hands out must be usable: comparing it with itself must not fault (an unresolved TypeSet
 		// literal dereferences its nil version fields in Equals)
 		if e := syn.Safely(func() px.Value { _ = t.Equals(t, nil); return px.Undef }); e.Kind == "fault" {
-			// known finding C06-typeset-spelling-unresolved: only the second spelling `Typeset[{…}]` still comes back unresolved;
-			// the class is that narrow one only when no type set is written under the spelling `TypeSet` in the expression
 			cls := "resolved-type-faults"
-			n1, n2 := countTypeSets(o.Val, "TypeSet", false), countTypeSets(o.Val, "Typeset", false)
-			if nv := countTypeSets(o.Val, "TypeSet", true); nv > 0 && n2 == 0 {
-				// known finding C06-typeset-equals-nil-version: a resolved type set WITHOUT the optional `version` entry
-				cls = "typeset-equals-nil-version"
-			} else if n1 == 0 && n2 > 0 {
-				cls = "typeset-spelling-unresolved"
-			}
 			return fail(out, cls, text, "the type ParseType returned faults in Equals: "+e.Msg, tags)
 		}
 		if modelled {
@@ -192,38 +183,6 @@ func resolveOp(c px.Context, text string) core.Result {
 		tags = append(tags, "outside")
 	}
 	return core.Result{Out: out, Pred: "ok", NonTrivial: modelled && strings.ContainsAny(text, "["), Tags: tags}
-}
-
-// countTypeSets: how many DeferredTypes named `name` with parameters occur in the parse result?  With noVersion only those
-// whose single hash parameter has a `pcore_version` entry and no `version` entry.
-func countTypeSets(v px.Value, name string, noVersion bool) int {
-	n := 0
-	switch v := v.(type) {
-	case *types.DeferredType:
-		if v.Name() == name && v.Parameters() != nil {
-			if !noVersion {
-				n++
-			} else if ps := v.Parameters(); len(ps) == 1 {
-				if h, ok := ps[0].(*types.Hash); ok {
-					_, hasP := h.Get4("pcore_version")
-					_, hasV := h.Get4("version")
-					if hasP && !hasV {
-						n++
-					}
-				}
-			}
-		}
-		for _, p := range v.Parameters() {
-			n += countTypeSets(p, name, noVersion)
-		}
-	case *types.HashEntry:
-		n += countTypeSets(v.Key(), name, noVersion) + countTypeSets(v.Value(), name, noVersion)
-	case *types.Hash:
-		v.EachPair(func(k, e px.Value) { n += countTypeSets(k, name, noVersion) + countTypeSets(e, name, noVersion) })
-	case *types.Array:
-		v.Each(func(e px.Value) { n += countTypeSets(e, name, noVersion) })
-	}
-	return n
 }
 
 func fail(out, class, text, detail string, tags []string) core.Result {
